@@ -167,7 +167,8 @@ def monitorValidate (prop mode : String) (st : Int) (levels : List (Revocation.E
           else if c.ocsp.isEmpty then Monitor.c05 env.crl c.toCrl st r else Monitor.c06 env c st r)
       | "C06" => perCert (fun env c r tr => if mode == "ocsp" then ocspOnlyMon env c r tr else Monitor.c06 env c st r)
       | "C10" => perCert (fun env c r _ =>
-          if mode == "ocsp" || !c.ocsp.isEmpty then none
+          -- CRL entries decide when there is no responder, and also when the responders were inconclusive (the CRL stage follows)
+          if mode == "ocsp" || (!c.ocsp.isEmpty && (Monitor.ocspFinal env.ocsp st c.ocsp).isSome) then none
           else match c.crlDPs with
             | [u] =>
               match env.crl.fetch u with
